@@ -1,6 +1,7 @@
 package main
 
 import (
+	"bytes"
 	"encoding/binary"
 	"fmt"
 	"math/rand/v2"
@@ -366,6 +367,9 @@ var rkWidths = func() []int {
 	return w
 }()
 
+var liveRK *types.SMB_RESUME_KEY
+var liveDI *types.SMB_DIRECTORY_INFORMATION
+
 func rkFields(k *types.SMB_RESUME_KEY, prefix string) []fv {
 	return []fv{fu(prefix+"Reserved", uint64(k.Reserved)), fb(prefix+"ServerState", k.ServerState[:]), fb(prefix+"ClientState", k.ClientState[:]),
 		fu(prefix+"SMB_STRING.BufferFormat", uint64(k.SMB_STRING.BufferFormat)), fu(prefix+"SMB_STRING.Length", uint64(k.SMB_STRING.Length)), fb(prefix+"SMB_STRING.Buffer", k.SMB_STRING.Buffer)}
@@ -416,6 +420,22 @@ func runResumeKey() {
 		enc, ok := marshal("SMB_RESUME_KEY", desc, k.Marshal)
 		if !ok {
 			continue
+		}
+		// a long-lived object that encoded/decoded other values before, given these field values,
+		// must produce the same encoding (no stale cached block)
+		if liveRK == nil {
+			liveRK = types.NewSMB_RESUME_KEY()
+			liveRK.Marshal()
+		}
+		liveRK.Reserved, liveRK.ServerState, liveRK.ClientState = k.Reserved, k.ServerState, k.ClientState
+		if again, ok2 := marshal("SMB_RESUME_KEY", desc, liveRK.Marshal); ok2 {
+			r.Eval(1)
+			if !bytes.Equal(again, enc) {
+				r.Violation("SMB_RESUME_KEY.Marshal:stale-after-field-change", fmt.Sprintf("an object re-assigned to %s encodes as %x, a fresh one as %x", desc, again, enc), map[string]any{"fields": desc})
+			}
+		}
+		if i%3 == 0 {
+			liveRK.Unmarshal(enc)
 		}
 		sp.judge(rkWant(v, ""), enc, anyNonzero(v), desc)
 		sample(sp, desc, enc)
@@ -473,6 +493,22 @@ func runDirectoryInformation() {
 		enc, ok := marshal("SMB_DIRECTORY_INFORMATION", desc, d.Marshal)
 		if !ok {
 			continue
+		}
+		if liveDI == nil {
+			liveDI = types.NewSMB_DIRECTORY_INFORMATION()
+			liveDI.Marshal()
+		}
+		liveDI.ResumeKey.Reserved, liveDI.ResumeKey.ServerState, liveDI.ResumeKey.ClientState = d.ResumeKey.Reserved, d.ResumeKey.ServerState, d.ResumeKey.ClientState
+		liveDI.FileAttributes, liveDI.LastWriteTime, liveDI.LastWriteDate, liveDI.FileSize = d.FileAttributes, d.LastWriteTime, d.LastWriteDate, d.FileSize
+		liveDI.FileName.SetString(name)
+		if again, ok2 := marshal("SMB_DIRECTORY_INFORMATION", desc, liveDI.Marshal); ok2 {
+			r.Eval(1)
+			if !bytes.Equal(again, enc) {
+				r.Violation("SMB_DIRECTORY_INFORMATION.Marshal:stale-after-field-change", fmt.Sprintf("an object re-assigned to %s encodes as %x, a fresh one as %x", desc, again, enc), map[string]any{"fields": desc})
+			}
+		}
+		if i%3 == 0 {
+			liveDI.Unmarshal(enc)
 		}
 		want := rkWant(v[:21], "ResumeKey.")
 		want = append(want, fu("FileAttributes", v[21]), fu("LastWriteTime.DwLowDateTime", v[22]), fu("LastWriteTime.DwHighDateTime", v[23]),
